@@ -95,14 +95,16 @@ class G:
         r = self.rng
         cands = [c for c in (lo, hi, 0, 1, (lo + hi) // 2) if lo <= c <= hi]
         v = r.choice(cands) if r.random() < 0.5 else r.randint(lo, hi)
+        if self.spell and self.spell_offsets and r.random() < 0.3:
+            v = r.choice([o for o in OFFSETS if lo <= o <= hi] or [v])
         if self.spell:
             if v < 0:
                 return self.atom([str(v)], v)
             alts = [str(v), "0x%X" % v, "0X%x" % v, "0b" + bin(v)[2:], "0B" + bin(v)[2:].zfill(20), "000" + str(v), "0x000%x" % v]
             if self.spell_bits and v >= 2 ** (self.spell_bits - 1) and v < 2 ** self.spell_bits:
                 alts.append(str(v - 2 ** self.spell_bits))          # the negative decimal with the same bit pattern
-            if self.spell_offsets and v in (0, 1, 3):
-                alts += [{0: "offset bv", 1: "OFFSET wv", 3: "offset arr"}[v]] * 2
+            if self.spell_offsets and v in OFFSETS:
+                alts += [r.choice(["offset ", "OFFSET "]) + OFFSETS[v]] * 3
             return self.atom(alts, v)
         if v < 0:
             return str(v)
@@ -231,7 +233,8 @@ class G:
         go(root)
         return order
 
-PRELUDE = "bv: db 7\nwv: dw 0x1234\narr: db [5]\n"
+OFFSETS = {0: "bv", 1: "wv", 3: "arr", 8: "sd", 10: "sw", 14: "aw", 18: "tl"}     # offsets of the prelude labels
+PRELUDE = "bv: db 7\nwv: dw 0x1234\narr: db [5]\nsd: db \"ab\"\nsw: dw \"xy\"\naw: dw [2]\ntl: db 1\n"
 
 def program(line):
     return PRELUDE + "start:\n" + line + "\nlab:\nhlt\nfin:\n"
@@ -726,6 +729,14 @@ def cli_cases(g, group, thorough):
             if top:
                 stdin = "".join(chr(65 + k % 26) for k in range(r.randrange(12, 60))) + "\n"
             out.append(("-", "start:\n" + pre + post + ("mov ah, 1\nint 0x21\nprint reg\n" if r.random() < 0.3 else ""), stdin))
+        # every AH value for both interrupts (the unsupported ones must be reported and stop the program)
+        for which in ("0x21", "0x10"):
+            for ah in range(256):
+                out.append(("-", f"start:\nmov bx, 0x300\nmov byte [bx], 4\nmov dx, bx\nmov bp, bx\nmov cx, 2\nmov al, 65\nmov ah, {ah}\nint {which}\nprint reg\nmov bx, 7\nprint reg\n", "ab\ncd\n"))
+        # input lines that do not start with (or contain only) ASCII
+        for line in ["\u00e9t\u00e9\n", "\u0100x\n", "\u20ac\n", "a\u00e9\n", "\U0001F600z\n", "\u00e9", "\x7f\n", "\u00ff\u00fe\n"]:
+            for ah, cap in ((1, 0), (0x0A, 1), (0x0A, 2), (0x0A, 3), (0x0A, 5), (0x0A, 255)):
+                out.append(("-", f"start:\nmov bx, 0x300\nmov byte [bx], {cap}\nmov dx, bx\nmov ah, {ah}\nint 0x21\nprint reg\nprint mem 0x300 : 12\nmov ah, 1\nint 0x21\nprint reg\n", line + "next\n"))
     elif group == "prints":
         for _ in range(n(250, 2500)):
             setup = "".join("mov %s, %s\n" % (reg, g.num(0, 65535)) for reg in r.sample(REG16, 4))
@@ -742,6 +753,11 @@ def cli_cases(g, group, thorough):
                 cmds += ["print mem : 15", "print mem : 16", "print mem :17", "PRINT MEM : 0xF"]
             body = setup + f"mov ax, {seg}\nmov ds, ax\n" + "\n".join(r.sample(cmds, 4)) + "\nprint reg\n" + r.choice(cmds) + "\n"
             out.append(("-", "\n".join(dl) + "\nstart:\n" + body, ""))
+        # DS-relative ranges whose count does not fit 16 bits, and constants beyond 2^20, in every radix
+        for seg in (0, 1, 0xF000, 0xFFFF):
+            for cnt in ("65535", "65536", "0x10000", "70000", "0b10000000000000000", "0x100003", "1048575", "1048576", "0xFFFFF", "2097155"):
+                out.append(("-", f"x: db 7\nstart:\nmov ax, {seg}\nmov ds, ax\nmov byte [3], 0x5A\nprint mem : {cnt}\nprint reg\n", ""))
+                out.append(("i", f"start:\nmov ax, {seg}\nmov ds, ax\nnop\n", f"n\nn\nprint mem : {cnt}\nn\n"))
     elif group == "diag":
         base_cases = errors(g, thorough, 0)
         for c in base_cases:
@@ -792,6 +808,16 @@ def cli_cases(g, group, thorough):
             out.append(("-", chain(450), ""))      # open finding KF-MACRO-DEPTH
         for special in ["", "\n", ";", "start:", "start: hlt", "\"", "[[[[", "9" * 5000, "start:\nmov ax, " + "9" * 100000 + "\n", "a:" * 2000,
                         "start:\n" + "nop\n" * 5000, "db \"" + "x" * 70000 + "\"\nstart:\n"]:
+            out.append(("-", special, ""))
+        # data definitions that run over the end of the 1 MB space; macro uses with too few / too many values
+        for special in ["set 0xFFFF\ndb [16]\nstart:\n", "set 0xFFFF\ndb [17]\nstart:\nprint mem 0 -> 3\n", "set 0xFFFF\ndw [9]\nstart:\nprint mem 0 -> 3\n",
+                        "set 0xFFFF\ndb \"0123456789abcdefXYZ\"\nstart:\nprint mem 0 -> 3\n", "set 0xFFFF\ndw \"0123456789\"\nstart:\nprint mem 0 -> 5\n",
+                        "set 0xFFFF\ndb [15]\ndw 0x1234\nstart:\nprint mem 0 -> 3\n", "set 0xFFFF\ndb [15]\ndb 7\ndb 8\nstart:\nprint mem 0 -> 3\n",
+                        "set 0xFFFF\ndb [200]\nx: dw 5\nstart:\nmov ax, word x\nprint reg\n", "set 0xF001\ndb [65535]\nstart:\nprint mem 0 -> 20\n",
+                        "macro load(dst,src) -> mov dst, src <-\nstart:\nload(bx)\n", "macro load(dst,src) -> mov dst, src <-\nstart:\nload()\n",
+                        "macro load(dst,src) -> mov dst, src <-\nstart:\nload(bx,cx,dx,ax)\nprint reg\n",
+                        "macro inner(a,b,c) -> mov a, b add a, c <-\nmacro outer(x) -> inner(x) <-\nstart:\nouter(ax)\n",
+                        "macro z() -> nop <-\nstart:\nz(ax)\nz()\n", "macro one(a) -> inc a <-\nstart:\none(,)\n", "macro one(a) -> inc a <-\nstart:\none(ax,)\n"]:
             out.append(("-", special, ""))
         # the smallest programs, stepped: nothing / one instruction after `start:`
         for tiny in ["start:", "start:\n", "start: hlt", "start:\nhlt\n", "start:\nnop", "start:\nprint reg", "x: db 1\nstart:\n", "def f {\n}\nstart:\n",
